@@ -798,7 +798,12 @@ func runC09Client(t *testing.T, rng *rand.Rand, rec *sim.Rec, tier string, caseN
 	srv.SetHandler(ts.handler)
 	logs := sim.NewLogSink()
 	logs.Budget = 400000
-	rc, err := sim.NewRealClient(n, net.IPv4(10, 1, 0, 1).To4(), 5000, "10.0.0.1:3478", "alice", "pw-a", "verif.test", 100*time.Millisecond, logs, nil)
+	state := []string{"no-allocation", "udp-allocation", "tcp-allocation", "udp-queue-full", "stun-only"}[caseNo%5]
+	rc, err := sim.NewRealClient(n, net.IPv4(10, 1, 0, 1).To4(), 5000, "10.0.0.1:3478", "alice", "pw-a", "verif.test", 100*time.Millisecond, logs, func(c *turn.ClientConfig) {
+		if state == "stun-only" {
+			c.TURNServerAddr = "" // a client that only ever does Binding requests
+		}
+	})
 	if err != nil {
 		t.Fatal(err)
 	}
@@ -807,7 +812,6 @@ func runC09Client(t *testing.T, rng *rand.Rand, rec *sim.Rec, tier string, caseN
 	}
 	x := &c13{t: t, rng: rng, rec: rec, net: n, srv: srv, rc: rc, ts: ts}
 	defer x.close()
-	state := []string{"no-allocation", "udp-allocation", "tcp-allocation", "udp-queue-full"}[caseNo%4]
 	peer := &net.UDPAddr{IP: net.IPv4(10, 2, 0, 1).To4(), Port: 7000}
 	x.peers = []*net.UDPAddr{peer}
 	var tcpAlloc interface{ Close() error }
